@@ -217,8 +217,10 @@ class Descriptor(DescriptorBase):
                 if res:
                     idx, branch_idx = res
                     sc = self.derive(idx, branch_index=branch_idx).script_pubkey()
-                    # if derivation is found but scriptpubkey doesn't match - fail
-                    return sc == psbt_scope.script_pubkey
+                    # a key without a branch set matches the derivation of any branch,
+                    # so a mismatch here doesn't mean that another key or derivation can't match
+                    if sc == psbt_scope.script_pubkey:
+                        return True
         for pub, (leafs, der) in psbt_scope.taproot_bip32_derivations.items():
             # check of the fingerprints
             for k in self.keys:
@@ -228,8 +230,10 @@ class Descriptor(DescriptorBase):
                 if res:
                     idx, branch_idx = res
                     sc = self.derive(idx, branch_index=branch_idx).script_pubkey()
-                    # if derivation is found but scriptpubkey doesn't match - fail
-                    return sc == psbt_scope.script_pubkey
+                    # a key without a branch set matches the derivation of any branch,
+                    # so a mismatch here doesn't mean that another key or derivation can't match
+                    if sc == psbt_scope.script_pubkey:
+                        return True
         return False
 
     def check_derivation(self, derivation_path):
